@@ -383,22 +383,16 @@ func TestC20Race(t *testing.T) {
 	rep.Explanation = "free-running -race build (Go race detector = vector-clock happens-before analysis); one scenario per public API / RPC method: real event loops run a full torrent lifecycle (add, allocate, download from an in-memory seed, complete, stop, start, verify, remove) while a second goroutine calls the method in a loop and a third writes resume data; a report is keyed by the two access sites. The scenario set (method x lifecycle) is enumerated completely; each scenario is one free execution."
 	rep.Rule = "scenarios = public API / RPC methods, each called in a loop while one torrent goes through its whole lifecycle (add, start, download from a scripted seed, seed, stop, start, verify), the periodic resume write runs every 20 ms and another client keeps adding and removing a second torrent (registry churn); non-trivial = the probed method was called at least 20 times while the torrent was transferring"
 	rep.Assumptions = []string{"the race detector reports races between accesses that actually execute in the scenario; schedules are not enumerated here (that is the threadlab part)", "DNS: only 'localhost' is resolved"}
-	if !core.Thorough() {
-		// quick: every other method (the full set is the thorough tier); getters that are known to be interesting are kept
-	}
 	var mu sync.Mutex
-	sem := make(chan struct{}, 6)
+	sem := make(chan struct{}, 8)
 	var wg sync.WaitGroup
 	type scen struct {
 		m      method
 		magnet bool
 	}
 	var scens []scen
-	for i, m := range ms {
-		if !core.Thorough() && i%2 == 1 && !strings.Contains(m.Name, "AddPeer") && !strings.Contains(m.Name, "Port") {
-			continue
-		}
-		scens = append(scens, scen{m, false})
+	for _, m := range ms {
+		scens = append(scens, scen{m, false}) // every method in both tiers
 	}
 	for _, m := range ms {
 		// the metadata-dependent getters also against a torrent added by magnet link (metadata arrives while they run)
